@@ -1,4 +1,4 @@
 import SA.Model.Accept
 namespace SA.Drv.Accept
-def entries : List (String × (List String → String)) := [("hol", SA.Accept.handleHol), ("stall", SA.Accept.handleStall), ("xtalk", SA.Accept.handleXtalk)]
+def entries : List (String × (List String → String)) := [("hol", SA.Accept.handleHol), ("stall", SA.Accept.handleStall), ("xtalk", SA.Accept.handleXtalk), ("isolate", SA.Accept.handleIsolate)]
 end SA.Drv.Accept
